@@ -824,7 +824,21 @@ def r8(ctx, r):
                  "one line early and the remaining CRLF is parsed as the start of the next pipelined request (the client's advanceChunked loops to the empty line)", okdesc="last chunk: trailer lines consumed through the empty line")
 
 
+def anchors(ctx, r):
+    tab = [(fn(ctx, HS, "findChunkedRequestEnd", HSF), ["chunkSize", "pos", "remaining", "data"]),
+           (fn(ctx, HS, "handleIncomingData", HSF), ["contentLength", "parsedLength", "hasContentLength", "isChunked", "totalExpectedLength", "invalidChunkSize", "dataStr", "headerEnd", "headerSection", "requestData", "requestEndPos", "value"]),
+           (fn(ctx, HC, "advanceChunked", HCF), ["chunkSize", "dataStart"]), (fn(ctx, HC, "frameResponse", HCF), ["framing", "data", "he", "headerScanPos"]), (fn(ctx, HC, "determineFraming", HCF), ["n", "teIt", "clIt"]),
+           (fn(ctx, HC, "parseContentLength", HCF), ["val", "result", "pos", "comma"]), (fn(ctx, HC, "parseHeaderBlock", HCF), ["value", "clValue", "pos"]), (fn(ctx, HC, "executeRequest", HCF), ["responseData", "effectiveCap", "len"])]
+    for f, names in tab:
+        common.require_names(f, names)
+        r.instance()
+        r.ok("%s: %s" % (last(f.name), ", ".join(names)))
+
+
 def run(ctx, ck):
+    r0 = ck.run_rule("C15-R0", "the local names the rules are anchored on exist (a rename makes the analysis refuse — exit 2 — instead of raising a false alarm)", "anchor table", lambda r: anchors(ctx, r))
+    if r0.broken:
+        return
     ck.run_rule("C15-R1", "peer-supplied lengths are bounded before they enter position arithmetic", "A8 predicate abstraction (one within-bounds atom per length)", lambda r: r1(ctx, r))
     ck.run_rule("C15-R2", "strict numeric parse; conflicting / duplicate length information reaches a rejecting exit before framing", "A8 + A11 sibling agreement", lambda r: r2(ctx, r))
     ck.run_rule("C15-R3", "receive buffers grow only behind their caps", "A2 dominance", lambda r: r3(ctx, r))
